@@ -25,8 +25,11 @@ class LxmlEventHandler(XmlHandler):
             An instance of the class type representing the parsed content.
         """
         if isinstance(source, (etree._ElementTree, etree._Element)):
+            # The tree belongs to the caller, leave it intact
             ctx = etree.iterwalk(source, EVENTS)
-        elif self.parser.config.process_xinclude:
+            return self.process_context(ctx, ns_map, clear=False)
+
+        if self.parser.config.process_xinclude:
             tree = etree.parse(source, base_url=self.parser.config.base_url)  # nosec
             tree.xinclude()
             ctx = etree.iterwalk(tree, EVENTS)
@@ -45,12 +48,14 @@ class LxmlEventHandler(XmlHandler):
         self,
         context: Iterable[tuple[str, Any]],
         ns_map: dict[str | None, str],
+        clear: bool = True,
     ) -> Any:
         """Iterate context and push events to main parser.
 
         Args:
             context: The iterable lxml context
             ns_map: A namespace prefix-URI recorder map
+            clear: Whether to release the elements after their end event
 
         Returns:
             An instance of the class type representing the parsed content.
@@ -73,7 +78,8 @@ class LxmlEventHandler(XmlHandler):
                     element.text,
                     element.tail,
                 )
-                element.clear()
+                if clear:
+                    element.clear()
             elif event == EventType.START_NS:
                 prefix, uri = element
                 self.parser.register_namespace(ns_map, prefix or None, uri)
